@@ -423,10 +423,8 @@ func c12(r *core.Run) {
 				}
 				isCtor := false
 				for _, cal := range p.Callees(c) {
-					for _, o := range p.StoreOps(cal) {
-						if o.Kind == "Set" && o.Module+"/"+o.Prefix == stGauge && cal.Signature.Results().Len() > 0 {
-							isCtor = true
-						}
+					if isGaugeCtor(p, cal) {
+						isCtor = true
 					}
 				}
 				if !isCtor {
@@ -454,24 +452,26 @@ func c12(r *core.Run) {
 		if strings.Contains(core.FnPkgPath(fn), "/upgrades") || strings.Contains(core.FnPkgPath(fn), "/legacy") {
 			continue
 		}
-		var set *core.StoreOp
+		if !isGaugeCtor(p, fn) {
+			continue // plain setter (genesis) is keyed by the record's own id
+		}
+		set := gaugeSetOps(p, fn)[0]
 		lookup := false
 		for _, o := range p.StoreOps(fn) {
-			if o.Module+"/"+o.Prefix != stGauge {
-				continue
-			}
-			if o.Kind == "Set" {
-				set = o
-			}
-			if o.Kind == "Has" || o.Kind == "Get" {
+			if o.Module+"/"+o.Prefix == stGauge && (o.Kind == "Has" || o.Kind == "Get") {
 				lookup = true
 			}
 		}
-		if set == nil || fn.Signature.Results().Len() == 0 {
-			continue // plain setter (genesis) is keyed by the record's own id
-		}
 		nCtor++
 		kp := p.ProvAt(set.Key, "", set.Instr)
+		if set.Instr.Parent() != fn {
+			// stored through the record setter: the key is the Id the constructor gives the record
+			allInstrs(fn, func(in ssa.Instruction) {
+				if al, ok := in.(*ssa.Alloc); ok && core.TypeName(al.Type()) == "x/storage/types.PaymentGauge" {
+					kp = p.ProvAt(al, ".Id", fn.Blocks[len(fn.Blocks)-1].Instrs[0])
+				}
+			})
+		}
 		var srcs []string
 		perCreation := false
 		for _, a := range kp.DataAtoms() {
@@ -524,10 +524,8 @@ func depositEqualsRecord(r *core.Run, rule string, hs []*core.Handler) {
 				}
 				isCtor := false
 				for _, cal := range p.Callees(ctor) {
-					for _, o := range p.StoreOps(cal) {
-						if o.Kind == "Set" && o.Module+"/"+o.Prefix == stGauge {
-							isCtor = true
-						}
+					if isGaugeCtor(p, cal) {
+						isCtor = true
 					}
 				}
 				if !isCtor {
